@@ -88,4 +88,3 @@ void tree_dump(OUT* o, CMR_SEYMOUR_NODE* node)
 OPDEF ops_tree[] = {
   { NULL, NULL }
 };
-OPDEF ops_sepa[] = { { NULL, NULL } };
